@@ -307,8 +307,8 @@ def generate(rng, tier):
     for c in HAND:
         yield c
     # 16777215 / 16777216 byte payloads: accepted / refused
-    if tier == "thorough":
-        yield "chunk ser m:5:9:1:00:r16777216.1"
+    yield "chunk ser m:5:9:1:00:r16777216.1"          # one byte past the limit: refused (cheap: an error comes back)
+    yield "chunk ser m:6:8:1:00:r16777217.2"
     if tier == "thorough":
         yield "chunk ser m:5:9:1:00:r16777215.3"
     for _ in range(n_ser):
